@@ -237,6 +237,9 @@ def nodeId (root : Mod) (s : Stmt) : NodeId := (root.seq, s.line, s.col)
 
 section Find
 variable (reg : Registry)
+-- `linked`: seqs of the modules whose import / include statements `Modules.include` linked (Go
+-- follows `i.Module`, which stays nil for a (sub)module that no loaded module reaches)
+variable (linked : List Nat)
 
 /-- Go: `trimLocalPrefix`. -/
 def trimLocalPrefix (root : Mod) (name : String) : String :=
@@ -273,6 +276,9 @@ def fgScope (fuel : Nat) (root : Mod) (scope : List Stmt) (name : String) (seen 
         let isMod := n.kw == "module" || n.kw == "submodule"
         -- a name that still carries a prefix is resolved only by this (sub)module's own imports
         let bare := !name.contains ':'
+        -- unlinked import / include statements are skipped
+        let isMod' := isMod
+        let isMod := isMod && linked.contains root.seq
         match fgImports fuel (if isMod then n.all "import" else []) name seen with
         | (some r, seen) => (some r, seen)
         | (none, seen) =>
@@ -281,7 +287,7 @@ def fgScope (fuel : Nat) (root : Mod) (scope : List Stmt) (name : String) (seen 
           | (none, seen) =>
             -- a submodule also sees the groupings of its owner and of the owner's other submodules
             let viaOwner : Option GroupingRef × List String :=
-              if isMod && bare && root.isSub then
+              if isMod' && bare && root.isSub then
                 match (root.belongsTo?.bind reg.getModule) with
                 | some owner =>
                   if seen.contains owner.name then (none, seen)
